@@ -139,11 +139,17 @@ class Tensor:
             (rank_ids, root, shape, name, default) = self.parse(yamlfile,
                                                                 default)
 
-            if shape is None:
-                shape = root.estimateShape()
+            if not isinstance(root, Fiber):
+                # A rank zero tensor, i.e., just a payload
+                self.setRankInfo(rank_ids, shape, default)
+                self._root = Payload(root)
+            else:
+                if shape is None:
+                    shape = root.estimateShape()
 
-            self.setRankInfo(rank_ids, shape, default)
-            self.setRoot(root)
+                self.setRankInfo(rank_ids, shape, default)
+                self.setRoot(root)
+
             self.setName(name)
             self.setColor(color)
             self.setMutable(False)
